@@ -260,6 +260,7 @@ def monitor_env():
         "ElemFlat": lambda c: c.get("flat") if hasattr(c, "flat") else None,
         "LabelHintNodes": lambda e, s: view(e.xml_label_and_hint(survey=s)),
         "SectionInstance": lambda sec, s: view(type(sec).__mro__[[c.__name__ for c in type(sec).__mro__].index("Section")].xml_instance(sec, survey=s)),
+        "BuiltControl": lambda q, s: view(q.build_xml(survey=s)),
         "ChildControl": lambda c: view(c.xml_control(survey=survey_of(c))),
         "LabelNode": lambda e, s: view(e.xml_label(survey=s)),
         "RepeatDynDefaults": lambda e: view(list(e._dynamic_defaults_helper(current=e, survey=survey_of(e)))),
@@ -278,7 +279,7 @@ def monitor_env():
     }
     for k in ("Descendants", "XPathOf", "Subst", "SubstIn", "IovText", "IovFlag", "ElemBinds", "ElemDynDefault",
               "RepeatAncestors", "ChildInst", "TemplateInst", "TemplateNode", "FlatKids", "ElemFlat", "LabelHintNodes",
-              "SectionInstance", "is_a", "has_attr", "ChildControl", "LabelNode", "RepeatDynDefaults"):
+              "SectionInstance", "is_a", "has_attr", "ChildControl", "LabelNode", "RepeatDynDefaults", "BuiltControl"):
         env[k] = U(env[k])
     return env
 
@@ -302,6 +303,9 @@ MONITORED = [
     "pyxform.survey.Survey.xml_instance",
     "pyxform.survey.Survey.xml_descendent_bindings",
     "pyxform.survey_element.SurveyElement.has_common_repeat_parent",
+    "pyxform.question.Question.xml_control",
+    "pyxform.question.Question._validate_is_not_a_trigger",
+    "pyxform.survey.Survey.get_trigger_values_for_question_name",
     "pyxform.section.Section.xml_control",
     "pyxform.section.GroupedSection.xml_control",
     "pyxform.section.RepeatingSection.xml_control",
